@@ -160,13 +160,13 @@ func init() {
 		ID:          "C22",
 		Explanation: "RN: the strip traversal (call tree of StripSourceRetentionOptionsFromFile) follows all 12 containment edges and touches all 9 options kinds. RN2: the option filter must descend into message-valued option fields (any depth: known finding today); no assignment in source_retention_options.go goes through a pointer/slice parameter (input not modified); every stripped child list is stored back on the rebuilt copy; the source-path tag used for each child list names the same field (tags.<Kind>_<Field>). RN7: every field-identity site of the strip (map index, slices.Contains needle derived from a FieldDescriptor) keys by the descriptor, Number() or FullName(), never by Index()/Name()/JSONName()/TextName() (scope-relative for extensions).",
 		NotDecided:  "exactness of the removed source-info paths beyond tag agreement; idempotence",
-		Rules:       []func(*World){rnStrip, rn7FieldIdentity},
+		Rules:       []func(*World){rnStrip, rn7FieldIdentity, rn8LazyCopyIsMade},
 	})
 	register(&Property{
 		ID:          "C21",
 		Explanation: "RC7c: an option that fails in lenient/unlinked mode and is kept as uninterpreted leaves no trace in the accumulated options message — either (A) on every acyclic path of interpretOptions through the true edge of interp.lenientErrReported the message passed to interpretField is restored from a proto.Clone snapshot taken before the call (paths with interp.lenient false are pruned there, by RH8), or (B) interpretField/setOptionField never call anything lenience-fallible after modifying msg. RH8: interp.reporter.HandleError* is called only inside the three lenience-aware wrappers, each of which starts with `if lenienceEnabled { lenientErrReported = true; return nil }`; the flags are written only there and in enableLenience. RC7: every proto.Merge into a caller-visible message is preceded on all paths by proto.Reset of the same message (fresh local clones exempt), and in interpreter.interpretOptions no call executes after the caller's options message was first modified (all fallible work happens on the scratch message). RC7d: a removal helper that shifts its argument's backing array obliges every caller to store the result on all paths (none today: RemoveOption copies). RC7e: the shortened uninterpreted-option list is never stored into the options message on a path that can still exit through a lenience-aware error wrapper.",
 		NotDecided:  "equality of option values across modes (value-level)",
-		Rules:       []func(*World){rh8Lenience, rc7LenientCommit, rc7cPerOptionAtomicity, rc7dInPlaceRemoval, rc7eCommitAfterChecks},
+		Rules:       []func(*World){rh8Lenience, rc7LenientCommit, rc7cPerOptionAtomicity, rc7dInPlaceRemoval, rc7eCommitAfterChecks, rh8bSilentFailureIsReported, ro3InPlaceFilterOnOwnedSlices},
 	})
 	register(&Property{
 		ID:          "C23",
